@@ -361,13 +361,13 @@ fn c19_async_fleet_broadcast(case: &Case) {
                     .with_name(format!("n{n}"))
                     .unwrap()
                     .with_tags(node_tags[n].iter().map(|t| t.to_string()))
-                    .with_timeout(Duration::from_millis(50))
+                    .with_timeout(Duration::from_millis(pick(&[20u64, 50, 150])))
                     .unwrap(),
             );
         }
         let fleet = AsyncFleet::with_options(
             cfgs,
-            FleetOptions { default_timeout: Duration::from_millis(pick(&[1u64, 50, 5_000])), retry_policy: RetryPolicy { max_attempts, delay: Duration::from_millis(5) } },
+            FleetOptions { default_timeout: Duration::from_millis(pick(&[1u64, 50, 5_000])), retry_policy: RetryPolicy { max_attempts, delay: Duration::from_millis(pick(&[0u64, 5, 30])) } },
         )
         .unwrap();
         let out = fleet.broadcast_json("/m/bc", Some(&json!({"x": 1})), &want_tags).await;
